@@ -5,6 +5,8 @@ import (
 	_ "verifharness/props/c02"
 	_ "verifharness/props/c03"
 	_ "verifharness/props/c06"
+	_ "verifharness/props/c07"
+	_ "verifharness/props/c08"
 	_ "verifharness/props/c09"
 	_ "verifharness/props/c10"
 	_ "verifharness/props/c11"
